@@ -37,6 +37,8 @@ class Obligation:
     time_s: float = 0.0
     model: object = None
     reason: str = ''
+    cases: tuple = ()       # boolean terms to split on: the obligation is discharged once per truth assignment,
+                            # with the terms replaced by constants and the formulas simplified (proof by cases)
 
 
 @dataclass
@@ -1434,6 +1436,12 @@ class Engine:
             r = self.eval_spec(cl.node, self.init_state, self.init_state, extra_env={var: IntV(k)})
             self.fact(body, self.truth(r))
         self.assign(s.target, at(k), body)
+        # proof by cases over conditions the body branches on (evaluated on entry of the iteration)
+        case_terms = []
+        for ctext in getattr(spec, 'cases', []) or []:
+            ct = z3.simplify(self.truth(self.eval_inv(ast.parse(ctext, mode='eval').body, body, {idx_name: IntV(k)})))
+            if not z3.is_true(ct) and not z3.is_false(ct):
+                case_terms.append(ct.arg(0) if z3.is_not(ct) else ct)
         saved = (fr.breaks, fr.continues, fr.loop_prefix, fr.loop_counter)
         fr.breaks, fr.continues = [], []
         fr.loop_prefix, fr.loop_counter = lid + '.', 0
@@ -1444,10 +1452,19 @@ class Engine:
         breaks = fr.breaks
         fr.breaks, fr.continues, fr.loop_prefix, fr.loop_counter = saved
         if not body.dead:
+            # calc-style hints: each is proved from what is known at the end of the body, then assumed
+            n_before = len(self.obligations)
+            for cl in getattr(spec, 'hints', []) or []:
+                r = self.eval_inv(cl.node, body, {idx_name: IntV(k)})
+                self.oblige(body, self.truth(r), f'loop{lid}:hint:{cl.label}', kind='loop', text=cl.text, props=cl.props)
+                self.fact(body, self.truth(r))
             for cl in spec.invariants:
                 r = self.eval_inv(cl.node, body, {idx_name: IntV(k + 1)})
                 self.oblige(body, self.truth(r), f'loop{lid}:preserved:{cl.label}', kind='loop',
                             text=cl.text, props=cl.props)
+            if case_terms:
+                for ob_ in self.obligations[n_before:]:
+                    ob_.cases = tuple(case_terms)
             for key in frame_keys:
                 ff = self.loop_frame_formula(key, body.heap[key])
                 if ff is not None:
@@ -2333,6 +2350,13 @@ class Engine:
             return IntV((aI - pymod) / bI)
         if op == 'Pow':
             n = self.concrete_int(bI) if bI is not None else None
+            if n is not None and 2 <= n <= 4 and not static_int and not z3.is_rational_value(z3.simplify(aR)):
+                # symbolic non-integer base: an opaque power function instead of a product (non-linear terms
+                # make every arithmetic query slow; nothing here needs more than x ** n being a function of x)
+                pw = self.uf_cache.setdefault(f'rpow{n}', z3.Function(f'rpow{n}', z3.RealSort(), z3.RealSort()))
+                self.assumptions.add('x ** n for a symbolic float x is an uninterpreted function of x (same function in code and contracts)')
+                return RealV(pw(aR)) if (static_real or aI is None) else DynV(z3.If(
+                    both_int, DynS.int(z3.ToInt(pw(aR))), DynS.real(pw(aR))))
             if n is not None and 0 <= n <= 4:
                 if n == 0:
                     return IntV(1)
@@ -2356,11 +2380,15 @@ class Engine:
             self.assumptions.add('x // y and x % y with symbolic y are characterised by x == y*q + r with 0 <= r < y (sign of y)')
         dv, md = self.uf_cache['pydiv'], self.uf_cache['pymod']
 
+        product = 'divmod_product' in self.contract.theories
+
         def ax(x, y):
             q, r = dv(x, y), md(x, y)
-            return z3.Implies(y != 0, z3.And(
-                x == y * q + r,
-                z3.Or(z3.And(y > 0, r >= 0, r < y), z3.And(y < 0, r <= 0, r > y))))
+            rng = z3.Or(z3.And(y > 0, r >= 0, r < y), z3.And(y < 0, r <= 0, r > y))
+            # the defining product x == y*q + r is a non-linear term: stated only for contracts that opt in
+            # (theories=['divmod_product']); elsewhere // and % by a symbolic divisor are functions with the
+            # range fact only, which is all that schedule tests like `steps % interval == 0` need
+            return z3.Implies(y != 0, z3.And(x == y * q + r, rng) if product else rng)
         if self.binders:
             if 'divmod_axiom' not in self.uf_cache:
                 x, y = z3.Ints('dx dy')
